@@ -89,10 +89,12 @@ def spell_full(sig, binding, form, built=None):
     xkw = list(binding.get('xkw', []))
     spell_defaults = bool((form // 64) % 2)
     omit_defaults = bool((form // 128) % 2)
-    if spell_defaults and not xpos:
-        for n in names:
-            if n not in given and n in defaults:
-                given[n] = defaults[n]
+    if spell_defaults:
+        if not xpos:
+            for n in names:
+                if n not in given and n in defaults:
+                    given[n] = defaults[n]
+        # keyword-only defaults can be spelled out whatever is passed positionally (also next to extra positionals)
         for n in kwdefaults:
             if n not in kwonly:
                 kwonly[n] = kwdefaults[n]
